@@ -157,6 +157,69 @@ def inst_bcsz(ctx):
         ctx.ob("C18_inst_bcsz_discriminates", False, "search", "the row/column hypotheses never differed on the sampled data")
 
 
+UNITARY_REPLAY = """d, measure, order, seed = {d}, {measure!r}, {order!r}, {seed}
+U = np.asarray(random_unitary(d, measure, seed))
+assert np.abs(U.conj().T @ U - np.eye(d)).max() < 1e-10                       # hypothesis
+v = U.reshape(-1) if order == 'row' else U.T.reshape(-1)
+out = np.asarray(random_quantum_channel(d, 'choi', measure=measure, order=order, seed=seed))
+assert np.abs(out - np.outer(v, v.conj())).max() < 1e-10, 'Choi matrix is not vec(U) vec(U)^dagger'
+red = np.einsum('ijik->jk' if order == 'row' else 'jiki->jk', out.reshape(d, d, d, d))
+assert np.abs(red - (U.conj().T @ U).T).max() < 1e-10 and np.abs(red - np.eye(d)).max() < 1e-10
+K = np.asarray(random_quantum_channel(d, 'kraus', measure='bcsz', rank=2, order=order, seed=seed)[0])
+C = np.asarray(random_quantum_channel(d, 'choi', measure='bcsz', rank=2, order=order, seed=seed))
+vec = (lambda k: k.reshape(-1)) if order == 'row' else (lambda k: k.T.reshape(-1))
+assert np.abs(sum(np.outer(vec(k), vec(k).conj()) for k in K) - C).max() < 1e-8
+redC = np.einsum('ijik->jk' if order == 'row' else 'jiki->jk', C.reshape(d, d, d, d))
+assert np.abs(redC - sum(k.conj().T @ k for k in K).T).max() < 1e-8 and np.abs(sum(k.conj().T @ k for k in K) - np.eye(d)).max() < 1e-8
+"""
+
+
+def inst_choi(ctx):
+    """T18_unitary_channel_cptp, T18_choi_row_ptrace / _column_ptrace / T18_choi_tp_iff / T18_choi_psd on the
+    channels the generator returns (`choi` against `kraus` output of the same seed)."""
+    from qibo.quantum_info import random_quantum_channel, random_unitary
+
+    T = _T(ctx, "C18_inst_choi")
+    rng = ctx.rng
+    seeds = [rng.randrange(10**6) for _ in range(3 if ctx.thorough else 2)]
+    for d in ((2, 4, 8) if ctx.thorough else (2, 4)):
+        for order in ("row", "column"):
+            es = "ijik->jk" if order == "row" else "jiki->jk"
+            vec = (lambda k: k.reshape(-1)) if order == "row" else (lambda k: k.T.reshape(-1))
+            for measure in (None, "haar"):
+                for seed in seeds:
+                    T.n += 1
+                    ctx.case(("inst-choi", d, order, measure, seed))
+                    ctx.stat("inst_choi")
+                    py = HEADER + UNITARY_REPLAY.format(d=d, measure=measure, order=order, seed=seed)
+                    key = f"random_quantum_channel:{measure}:choi"
+                    try:
+                        U = np.asarray(random_unitary(d, measure, seed))
+                        if np.abs(U.conj().T @ U - np.eye(d)).max() > 1e-10:
+                            continue  # random_unitary's own validity is examined by search_generators
+                        v = vec(U)
+                        out = np.asarray(random_quantum_channel(d, "choi", measure=measure, order=order, seed=seed))
+                        red = np.einsum(es, out.reshape(d, d, d, d))
+                        ok = (np.abs(out - np.outer(v, v.conj())).max() < 1e-10 and np.abs(red - (U.conj().T @ U).T).max() < 1e-10
+                              and np.abs(red - np.eye(d)).max() < 1e-10 and herm_eigs(out).min() > -1e-10)
+                        K = np.asarray(random_quantum_channel(d, "kraus", measure="bcsz", rank=2, order=order, seed=seed)[0])
+                        C = np.asarray(random_quantum_channel(d, "choi", measure="bcsz", rank=2, order=order, seed=seed))
+                        redC = np.einsum(es, C.reshape(d, d, d, d))
+                        kk = sum(k.conj().T @ k for k in K)
+                        ok2 = (np.abs(sum(np.outer(vec(k), vec(k).conj()) for k in K) - C).max() < 1e-8          # Choi = sum vec(K) vec(K)^dagger
+                               and np.abs(redC - kk.T).max() < 1e-8 and np.abs(kk - np.eye(d)).max() < 1e-8)      # Tr_out Choi = (sum K^dagger K)^T = 1
+                    except Exception as e:  # noqa: BLE001
+                        T.fail(key, f"random_quantum_channel({d}, 'choi'/'kraus', measure={measure!r}/'bcsz', order='{order}', seed={seed}) raises {type(e).__name__}: {e}", py)
+                        continue
+                    if not ok:
+                        T.fail(key, f"random_quantum_channel({d}, 'choi', measure={measure!r}, order='{order}', seed={seed}) is not vec(U) vec(U)^dagger of random_unitary with the same seed, or not CPTP", py)
+                    if not ok2:
+                        T.fail("random_quantum_channel:bcsz:kraus" if order == "row" else "random_quantum_channel:bcsz-column-not-TP",
+                               f"random_quantum_channel({d}, measure='bcsz', rank=2, order='{order}', seed={seed}): 'kraus' and 'choi' outputs are not related by Choi = sum vec(K) vec(K)^dagger, "
+                               "or Tr_out Choi != (sum K^dagger K)^T, or sum K^dagger K != 1", py)
+    T.done()
+
+
 # ----------------------------------------------------------------------------------------
 # T18_bures_* / T18_density_rank_le / T18_ginibre_psd  (C18d) and T18_density_from_ginibre (C18c)
 # ----------------------------------------------------------------------------------------
@@ -530,7 +593,7 @@ def inst_entropies(ctx):
 
 
 def run_suites(ctx):
-    for suite in (inst_bcsz, inst_density, inst_fidelity, inst_entanglement, inst_entropies):
+    for suite in (inst_bcsz, inst_choi, inst_density, inst_fidelity, inst_entanglement, inst_entropies):
         with warnings.catch_warnings():
             warnings.simplefilter("ignore")
             suite(ctx)
